@@ -118,9 +118,11 @@ impl RollingLogger {
         for entry in fs::read_dir(&self.log_dir)? {
             let entry = entry?;
             let file_full_path = entry.path();
-            let metadata = fs::metadata(&file_full_path)?;
-            if !metadata.is_file() && file_full_path.ends_with(&self.log_file_extension) {
-                continue;
+            // only regular files are log files: an entry that cannot be stat()-ed (dangling link,
+            // deleted meanwhile) or a sub-directory must not stop the trimming of old files
+            match fs::metadata(&file_full_path) {
+                Ok(metadata) if metadata.is_file() => {}
+                _ => continue,
             }
 
             // log file name should able convert to string safely; if not, ignore this file entry
